@@ -354,6 +354,9 @@ def elaborate(ast):
                 model.status = "rejected"
                 model.reason = "argument with stride>1"
                 return model
+        if f.wkind == "transition" and any(a.kind == "derived" and a.complex for a in f.args):
+            # docs: Transition == Window(width 2) whose default start waits for its arguments; code: start is 1
+            model.gaps.append("transition-over-complex-arg")
         broad, strict = classify_derived(f)
         if broad != strict:
             model.gaps.append("derived-none-universe")
